@@ -25,7 +25,10 @@ CONSTANTS Structs,   \* struct name -> sequence of fields [id, name, t]
           MaxLen,    \* length bound of the path lists
           Walks,     \* sequence of positions: sequences of query steps
           Pims,      \* sequence of path expressions asked through PathInMask
-          StrOrder   \* the string keys in use, in byte order (strings cannot be compared in TLC)
+          StrOrder,  \* the string keys in use, in byte order (strings cannot be compared in TLC)
+          Fixes      \* which revision of the code layer B transcribes (probed on the real code by the check):
+                     \*   "negid"      fieldMap accepts negative field ids (before: index out of range)
+                     \*   "prefixdrop" a complete path drops the children a longer path left at its node
 
 (***************************************************************************)
 (* Data.                                                                   *)
@@ -269,7 +272,11 @@ AddStrs(n, strs, i, ft, rest, ety) ==
        IN IF r.e # "" THEN BR(n1, r.e) ELSE AddStrs(n1, strs, i + 1, ft, rest, ety)
 
 Add(n, segs, ty) ==
-  IF segs = <<>> THEN BR([n EXCEPT !.isAll = TRUE], "")      \* "for scalar type, isAll is always true"
+  IF segs = <<>> THEN                                         \* "for scalar type, isAll is always true"
+     (IF "prefixdrop" \in Fixes
+      THEN BR([n EXCEPT !.isAll = TRUE, !.all = Nil, !.fd = <<>>, !.fdNil = TRUE, !.im = <<>>, !.imNil = TRUE,
+                        !.sm = <<>>, !.smNil = TRUE], "")
+      ELSE BR([n EXCEPT !.isAll = TRUE], ""))
   ELSE
   LET sg == Head(segs)
       rest == Tail(segs)
@@ -285,7 +292,7 @@ Add(n, segs, ty) ==
      ELSE LET i == FieldIx(ty.name, sg) IN
         IF i = 0 THEN BR(n, "unknown")
         ELSE LET f == Structs[ty.name][i] IN
-             IF f.id < 0 THEN BR(n, "PANIC")                 \* fieldMap.head[f] with f < 0
+             IF f.id < 0 /\ "negid" \notin Fixes THEN BR(n, "PANIC")   \* fieldMap.head[f] with f < 0
              ELSE LET r == Add(Slot(n.fd, f.id, SwitchFt(f.t), n.blk), rest, f.t)
                   IN BR([n EXCEPT !.fd = Ext(n.fd, f.id, r.n), !.fdNil = FALSE], r.e)
   ELSE IF sg.k = "idx" THEN
@@ -317,7 +324,7 @@ Get(f, k) == IF k \in DOMAIN f /\ ExistOf(f[k]) THEN f[k] ELSE Nil
 Query(n, st) ==
   IF IsNil(n) \/ n.typ = "Invalid" THEN QR(Nil, TRUE)
   ELSE IF n.isAll THEN QR(n.all, ~n.blk \/ HasChild(n))
-  ELSE IF st.k = "f" THEN (IF n.fdNil \/ st.n < 0 THEN [m |-> Nil, ex |-> FALSE, p |-> TRUE]
+  ELSE IF st.k = "f" THEN (IF (n.fdNil \/ st.n < 0) /\ "negid" \notin Fixes THEN [m |-> Nil, ex |-> FALSE, p |-> TRUE]
                            ELSE Ret(n, Get(n.fd, st.n)))
   ELSE IF st.k = "i" THEN Ret(n, Get(n.im, st.n))
   ELSE Ret(n, Get(n.sm, st.s))
